@@ -105,6 +105,60 @@ def ref_components(vol, inten, omegas):
     return lab, comps
 
 
+def compare_flt(run, V, text, vol, inten, omegas, comps):
+    """.flt text (as written by labelimage) vs the reference 3-D components"""
+    # ---- final: rows <-> components
+    rows = [l.split() for l in text.splitlines() if l.strip() and not l.startswith("#")]
+    titles = text.splitlines()[0].lstrip("#").split()
+    col = {t: i for i, t in enumerate(titles)}
+    bykey = {c["key"]: (cid, c) for cid, c in comps.items()}
+    kidx = {float(o): k for k, o in enumerate(omegas)}
+    used = set()
+    run.count("peaks_written", len(rows))
+    run.count("components_expected", len(comps))
+    if len(rows) != len(comps):
+        V("final:count", "%d peaks written, %d connected components" % (len(rows), len(comps)))
+    tp, tI = 0, 0.0
+    for v in rows:
+        g = lambda t: float(v[col[t]])
+        tp += int(g("Number_of_pixels"))
+        tI += g("sum_intensity")
+        key = (kidx.get(g("IMax_o")), int(g("IMax_s")), int(g("IMax_f")))
+        if key not in bykey:
+            V("final:unknown-peak", "written peak with max voxel %r matches no component" % (key,))
+            continue
+        cid, c = bykey[key]
+        if cid in used:
+            V("final:duplicate-peak", "component written twice")
+            continue
+        used.add(cid)
+        run.count("peaks_matched")
+        bad = []
+        if int(g("Number_of_pixels")) != c["npix"]:
+            bad.append("npix %d != %d" % (int(g("Number_of_pixels")), c["npix"]))
+        if abs(g("sum_intensity") - c["sumI"]) > 1e-3:
+            bad.append("sum_intensity %r != %d" % (g("sum_intensity"), c["sumI"]))
+        if abs(g("avg_intensity") - c["sumI"] / c["npix"]) > 1e-4 * 1.01:
+            bad.append("avg_intensity")
+        for t, w in (("sc", c["s"]), ("fc", c["f"]), ("s_raw", c["s"]), ("f_raw", c["f"]), ("omega", c["o"])):
+            if abs(g(t) - w) > 0.51e-4 + 1e-9 * abs(w):
+                bad.append("%s %r != %r" % (t, g(t), w))
+        if g("IMax_int") != c["maxI"]:
+            bad.append("IMax_int %r != %d" % (g("IMax_int"), c["maxI"]))
+        bb = (g("Min_s"), g("Max_s"), g("Min_f"), g("Max_f"), g("Min_o"), g("Max_o"))
+        if any(abs(a - b) > 0.51e-4 for a, b in zip(bb, c["bb"])):
+            bad.append("bounding box %r != %r" % (bb, c["bb"]))
+        if bad:
+            V("final:properties", "peak of component with max voxel %r: %s" % (key, "; ".join(bad[:3])))
+    if tp != int(vol.sum()) or abs(tI - float(inten[vol].astype(np.int64).sum())) > 1e-3 * max(1, len(rows)):
+        V("final:conservation", "total pixels %d / intensity %.4f written, stack has %d / %d"
+          % (tp, tI, int(vol.sum()), int(inten[vol].astype(np.int64).sum())))
+    missing = [c for cid, c in comps.items() if cid not in used]
+    if missing and len(rows) == len(comps):
+        V("final:lost-component", "component with max voxel %r never written" % (missing[0]["key"],))
+    return rows, tp
+
+
 def one_case(run, seed, idx, mods):
     labelimage, columnfile, cImageD11 = mods
     r = rng(seed, "C12", idx)
@@ -181,55 +235,7 @@ def one_case(run, seed, idx, mods):
               % (k, written_pix, open_pix, seen_pix, written_I, open_I, seen_I), frame=k)
             break
     lio.finalise()
-    # ---- final: rows <-> components
-    rows = [l.split() for l in out.getvalue().splitlines() if l.strip() and not l.startswith("#")]
-    titles = out.getvalue().splitlines()[0].lstrip("#").split()
-    col = {t: i for i, t in enumerate(titles)}
-    bykey = {c["key"]: (cid, c) for cid, c in comps.items()}
-    kidx = {float(o): k for k, o in enumerate(omegas)}
-    used = set()
-    run.count("peaks_written", len(rows))
-    run.count("components_expected", len(comps))
-    if len(rows) != len(comps):
-        V("final:count", "%d peaks written, %d connected components" % (len(rows), len(comps)))
-    tp, tI = 0, 0.0
-    for v in rows:
-        g = lambda t: float(v[col[t]])
-        tp += int(g("Number_of_pixels"))
-        tI += g("sum_intensity")
-        key = (kidx.get(g("IMax_o")), int(g("IMax_s")), int(g("IMax_f")))
-        if key not in bykey:
-            V("final:unknown-peak", "written peak with max voxel %r matches no component" % (key,))
-            continue
-        cid, c = bykey[key]
-        if cid in used:
-            V("final:duplicate-peak", "component written twice")
-            continue
-        used.add(cid)
-        run.count("peaks_matched")
-        bad = []
-        if int(g("Number_of_pixels")) != c["npix"]:
-            bad.append("npix %d != %d" % (int(g("Number_of_pixels")), c["npix"]))
-        if abs(g("sum_intensity") - c["sumI"]) > 1e-3:
-            bad.append("sum_intensity %r != %d" % (g("sum_intensity"), c["sumI"]))
-        if abs(g("avg_intensity") - c["sumI"] / c["npix"]) > 1e-4 * 1.01:
-            bad.append("avg_intensity")
-        for t, w in (("sc", c["s"]), ("fc", c["f"]), ("s_raw", c["s"]), ("f_raw", c["f"]), ("omega", c["o"])):
-            if abs(g(t) - w) > 0.51e-4 + 1e-9 * abs(w):
-                bad.append("%s %r != %r" % (t, g(t), w))
-        if g("IMax_int") != c["maxI"]:
-            bad.append("IMax_int %r != %d" % (g("IMax_int"), c["maxI"]))
-        bb = (g("Min_s"), g("Max_s"), g("Min_f"), g("Max_f"), g("Min_o"), g("Max_o"))
-        if any(abs(a - b) > 0.51e-4 for a, b in zip(bb, c["bb"])):
-            bad.append("bounding box %r != %r" % (bb, c["bb"]))
-        if bad:
-            V("final:properties", "peak of component with max voxel %r: %s" % (key, "; ".join(bad[:3])))
-    if tp != int(vol.sum()) or abs(tI - float(inten[vol].astype(np.int64).sum())) > 1e-3 * max(1, len(rows)):
-        V("final:conservation", "total pixels %d / intensity %.4f written, stack has %d / %d"
-          % (tp, tI, int(vol.sum()), int(inten[vol].astype(np.int64).sum())))
-    missing = [c for cid, c in comps.items() if cid not in used]
-    if missing and len(rows) == len(comps):
-        V("final:lost-component", "component with max voxel %r never written" % (missing[0]["key"],))
+    rows, tp = compare_flt(run, V, out.getvalue(), vol, inten, omegas, comps)
     # the text parses back with columnfile to the same numbers
     if rows and idx % 5 == 0:
         import os, tempfile
@@ -248,16 +254,68 @@ def one_case(run, seed, idx, mods):
             os.unlink(fn)
 
 
+def script_case(run, seed, idx):
+    """the same oracle on the output of scripts/peaksearch.py run on EDF files written by the harness"""
+    import os, shutil, subprocess, tempfile
+    import fabio
+    from ..common import WORK, REPO, PY
+    r = rng(seed, "C12", "script", idx)
+    shape = [(16, 12), (32, 32), (40, 25)][idx % 3]
+    nfr = int([3, 6, 10][idx % 3])
+    cls = ["mixed", "linked-through-previous", "chain", "forkjoin", "ellipsoids", "empty-frames"][idx % 6]
+    vol = gen_volume(r, nfr, shape, cls)
+    thr = float(r.choice([5.0, 100.0]))
+    vals = r.permutation(2 ** 20 - 200)[:vol.size] + int(thr) + 1
+    inten = np.where(vol, vals.reshape(vol.shape), int(thr) - r.integers(0, 3, vol.shape)).astype(np.float32)
+    step = float(r.choice([0.25, 1.0, -0.5]))
+    om0 = float(r.choice([0.0, 37.5]))
+    omegas = om0 + step * np.arange(nfr)
+    desc = dict(index=idx, route="scripts/peaksearch.py", shape=shape, nframes=nfr, cls=cls, threshold=thr, omega_step=step)
+    lab3, comps = ref_components(vol, inten, omegas)
+    run.case(("script", shape, nfr, cls, hash(vol.tobytes())), nontrivial=len(comps) >= 2, sample=desc if idx < 2 else None)
+
+    def V(key, what, **kw):
+        run.violation("script:" + key, what, dict(desc, **kw))
+    os.makedirs(os.path.join(WORK, "tmp"), exist_ok=True)
+    d = tempfile.mkdtemp(prefix="c12s_", dir=os.path.join(WORK, "tmp"))
+    try:
+        for k in range(nfr):
+            im = fabio.edfimage.EdfImage(data=inten[k], header={"Omega": "%r" % float(omegas[k])})
+            im.write(os.path.join(d, "img%04d.edf" % k))
+        from_header = bool(idx % 2)
+        cmd = [PY, os.path.join(REPO, "scripts", "peaksearch.py"), "-n", "img", "-F", ".edf", "-f", "0", "-l", str(nfr - 1),
+               "-o", "pk.spt", "-t", str(thr), "-p", "Y", "--singleThread"]
+        if not from_header:
+            cmd += ["--OmegaOverRide", "-T", str(om0), "-S", str(step)]
+        p = subprocess.run(cmd, cwd=d, stdout=subprocess.PIPE, stderr=subprocess.STDOUT, timeout=600)
+        run.count("peaksearch_script_runs")
+        flt = os.path.join(d, "pk_t%d.flt" % int(thr))
+        if p.returncode != 0 or not os.path.exists(flt):
+            V("failed", "scripts/peaksearch.py failed rc=%d: %s" % (p.returncode, p.stdout.decode(errors="replace")[-400:]))
+            return
+        compare_flt(run, V, open(flt).read(), vol, inten, omegas, comps)
+    finally:
+        shutil.rmtree(d, ignore_errors=True)
+
+
 def check(run, replay=None):
     from ImageD11 import labelimage, columnfile, cImageD11
     mods = (labelimage, columnfile, cImageD11)
     if replay is not None:
-        one_case(run, replay["seed"], replay["case"]["index"], mods)
+        if replay["case"].get("route") == "scripts/peaksearch.py":
+            script_case(run, replay["seed"], replay["case"]["index"])
+        else:
+            one_case(run, replay["seed"], replay["case"]["index"], mods)
         run.nontrivial.update(["replay", "replay2"])
         return
     n = 160 if run.tier == "quick" else 6000
     for idx in range(n):
         one_case(run, run.seed, idx, mods)
+    import os
+    if not os.environ.get("VERIF_ASAN_RERUN"):
+        for idx in range(4 if run.tier == "quick" else 60):
+            script_case(run, run.seed, idx)
+        run.require_counter("peaksearch_script_runs", 2)
     run.require_counter("frames_processed", 500)
     run.require_counter("peaks_matched", 500)
     run.require_counter("ledger_checks", 500)
